@@ -10,9 +10,11 @@
    pending repairs of property C02 (the theorem holds for all four combinations).
    [frozen_parents hist]: no handle is mutated (Put/Delete/ClearPrefix) after a snapshot was taken
    from it — the copy-on-write contract under which "modified independently" is read
-   (DESIGN.md §5 C03); SetVersion, WriteDirty, Hash and further snapshots of it remain allowed. *)
+   (DESIGN.md §5 C03); SetVersion, WriteDirty, Hash and further snapshots of it remain allowed.
+   [xrun]/[xstep] add ClearPrefixLimit (deleteNodesLimit) to the steps; the theorems are stated
+   for both kinds of histories. *)
 From Common Require Import Bytes Blake2b.
-From C03 Require Import Model Proofs Main.
+From C03 Require Import Model Proofs Main MainX.
 
 (* No step of a fork history changes what is seen through any handle other than the one it
    mutates; steps that mutate no handle (Snapshot, SetVersion — raising the version included —,
@@ -39,6 +41,29 @@ Theorem C03_snapshot_view :
 Proof. exact snapshot_view. Qed.
 Print Assumptions C03_snapshot_view.
 
+(* The same for histories that also contain ClearPrefixLimit steps (any prefix, any limit): the
+   whole mutating interface of the trie (Put, Delete, ClearPrefix, ClearPrefixLimit). *)
+Theorem C03_isolation_with_limit :
+  forall (H : list byte -> list byte) (fd fg : bool) (hist : list xstep),
+  xfrozen_parents hist = true ->
+  forall n s, nth_error hist n = Some s ->
+  forall j, xmutated_handle s <> Some j ->
+    j < length (s_hs (xrun H true fd (firstn n hist) init_state)) ->
+    view H fg (xrun H true fd (firstn (S n) hist) init_state) j
+    = view H fg (xrun H true fd (firstn n hist) init_state) j.
+Proof. exact xisolation. Qed.
+Print Assumptions C03_isolation_with_limit.
+
+Theorem C03_snapshot_view_with_limit :
+  forall (H : list byte -> list byte) (fd fg : bool) (hist : list xstep),
+  xfrozen_parents hist = true ->
+  forall n i, nth_error hist n = Some (Core (Snap i)) ->
+  let before := xrun H true fd (firstn n hist) init_state in
+  i < length (s_hs before) ->
+  view H fg (xrun H true fd (firstn (S n) hist) init_state) (length (s_hs before)) = view H fg before i.
+Proof. exact xsnapshot_view. Qed.
+Print Assumptions C03_snapshot_view_with_limit.
+
 (* The pinned code (MustBeHashed and SetDirty applied to the shared node before
    prepForMutation) violated the property: raising a snapshot's version and re-putting an
    unchanged 40-byte value changes the view through the original. *)
@@ -60,6 +85,16 @@ Example C03_nonvacuous :
       /\ view blake2b_256 false st 1 <> view blake2b_256 false st 3
       /\ view blake2b_256 false st 0 <> None).
 Proof. exact fork_hist_nonvacuous. Qed.
+
+Example C03_limit_nonvacuous :
+  xfrozen_parents limit_hist = true
+  /\ (let st := xrun blake2b_256 true false limit_hist init_state in
+      let st0 := xrun blake2b_256 true false (firstn 7 limit_hist) init_state in
+      view blake2b_256 false st 0 = view blake2b_256 false st0 0
+      /\ view blake2b_256 false st 1 <> view blake2b_256 false st 0
+      /\ view blake2b_256 false st 2 <> view blake2b_256 false st 0
+      /\ view blake2b_256 false st 1 <> view blake2b_256 false st 2).
+Proof. exact limit_hist_nonvacuous. Qed.
 
 (* informational: the hypothesis is needed — a parent mutated after a snapshot shares its
    in-place writes with the snapshot by design *)
